@@ -143,12 +143,17 @@ func main() {
 		if c.Seq {
 			return checkSequence(c.Data, c.Next)
 		}
+		r.Watch(127, c.Data)
+		defer r.WatchDone(127)
 		vs := checkData(c.Data)
 		if c.Key != "" && len(vs) > 0 {
 			vs = vs[:1]
 			vs[0].Key = c.Key
 		}
 		return vs
+	}
+	r.Stuck = func(input []byte) kit.V {
+		return kit.V{Key: "no-return data=" + kit.Q(input), What: fmt.Sprintf("NeedsQuote/Quote/Unquote of %q does not return", input), Case: kase{Data: input}}
 	}
 	r.ConcurrentReplay = true
 	r.Noise = func(i int) {
@@ -180,7 +185,9 @@ func main() {
 				r.Sample(string(s))
 			}
 		}
+		r.Watch(w, s)
 		vs := checkData(s)
+		r.WatchDone(w)
 		for _, v := range vs {
 			r.Violation(v.Key, v.What, v.Case)
 		}
